@@ -55,6 +55,9 @@ func ReplayTape(vals []uint64) *Tape {
 	return &Tape{Vals: append([]uint64(nil), vals...), replay: true, Limit: 2_000_000}
 }
 
+// IsReplay reports whether the tape replays recorded values (replay / shrink) rather than drawing fresh ones.
+func (t *Tape) IsReplay() bool { return t.replay }
+
 // Used returns the prefix of the tape that was actually consumed.
 func (t *Tape) Used() []uint64 {
 	if t.pos > len(t.Vals) {
